@@ -42,7 +42,7 @@ def setup(ctx, R):
 
 def cases(tier, seed):
     out = []
-    maxd = 6 if tier == "quick" else 9
+    maxd = 6 if tier == "quick" else 14
     idx = 0
     for H in range(1, maxd + 1):
         for W in range(1, maxd + 1):
